@@ -519,7 +519,9 @@ func (x *Exec) mapcardFn(ks string) string {
 		x.u.sortDecl = append(x.u.sortDecl, fmt.Sprintf("(declare-fun %s ((Array %s Bool)) Int)", fn, ks),
 			fmt.Sprintf("(assert (forall ((d (Array %s Bool))) (! (>= (%s d) 0) :pattern ((%s d)))))", ks, fn, fn),
 			fmt.Sprintf("(assert (forall ((d (Array %s Bool)) (k %s)) (! (= (%s (store d k true)) (+ (%s d) (ite (select d k) 0 1))) :pattern ((%s (store d k true))))))", ks, ks, fn, fn, fn),
-			fmt.Sprintf("(assert (forall ((d (Array %s Bool)) (k %s)) (! (= (%s (store d k false)) (- (%s d) (ite (select d k) 1 0))) :pattern ((%s (store d k false))))))", ks, ks, fn, fn, fn))
+			fmt.Sprintf("(assert (forall ((d (Array %s Bool)) (k %s)) (! (= (%s (store d k false)) (- (%s d) (ite (select d k) 1 0))) :pattern ((%s (store d k false))))))", ks, ks, fn, fn, fn),
+			// a set with a member is not empty
+			fmt.Sprintf("(assert (forall ((d (Array %s Bool)) (k %s)) (! (=> (select d k) (>= (%s d) 1)) :pattern ((%s d) (select d k)))))", ks, ks, fn, fn))
 	}
 	return fn
 }
